@@ -25,12 +25,56 @@ func c11r6(c *core.Ctx) {
 			return
 		}
 		idx := 0
+		// slices of keys collected from one of the Config's maps (to visit them in sorted order)
+		keySlices := map[types.Object]*types.Var{}
 		ast.Inspect(fd.Body, func(nd ast.Node) bool {
 			rs, ok := nd.(*ast.RangeStmt)
 			if !ok {
 				return true
 			}
 			f := fieldOf(info, rs.X)
+			if f == nil || !core.RecvNamedOfField(cfgT, f) {
+				return true
+			}
+			ast.Inspect(rs.Body, func(k ast.Node) bool {
+				as, ok := k.(*ast.AssignStmt)
+				if !ok || len(as.Lhs) != 1 || len(as.Rhs) != 1 {
+					return true
+				}
+				if ce, ok := as.Rhs[0].(*ast.CallExpr); ok && isBuiltinCall(info, ce, "append") {
+					if id, ok := as.Lhs[0].(*ast.Ident); ok {
+						keySlices[objOfIdent(info, id)] = f
+					}
+				}
+				return true
+			})
+			return true
+		})
+		ast.Inspect(fd.Body, func(nd ast.Node) bool {
+			rs, ok := nd.(*ast.RangeStmt)
+			if !ok {
+				return true
+			}
+			f := fieldOf(info, rs.X)
+			if f == nil {
+				if id, ok := ast.Unparen(rs.X).(*ast.Ident); ok {
+					f = keySlices[objOfIdent(info, id)]
+				}
+			} else if _, collects := func() (struct{}, bool) {
+				// the key-collecting loop itself only appends: nothing to judge
+				for _, kf := range keySlices {
+					if kf == f && len(rs.Body.List) == 1 {
+						if as, ok := rs.Body.List[0].(*ast.AssignStmt); ok && len(as.Rhs) == 1 {
+							if ce, ok := as.Rhs[0].(*ast.CallExpr); ok && isBuiltinCall(info, ce, "append") {
+								return struct{}{}, true
+							}
+						}
+					}
+				}
+				return struct{}{}, false
+			}(); collects {
+				return true
+			}
 			if f == nil || !core.RecvNamedOfField(cfgT, f) {
 				return true
 			}
